@@ -279,6 +279,13 @@ func (h *ProposalHandler) CheckInitialSignaturesFromLastCommit(ctx sdk.Context, 
 			h.logger.Error("CheckInitialSignaturesFromLastCommit: failed to unmarshal vote extension", "error", err)
 			// check for initial sig
 		} else if len(voteExt.InitialSignature.SignatureA) > 0 {
+			// the vote extension handler only bounds the signature sizes from above; an address cannot be recovered from
+			// fewer than 64 bytes (EVMAddressFromSignatures slices the first 64 and would panic, here and in every validator's
+			// ProcessProposal, so that no proposal built on this commit could ever be accepted)
+			if len(voteExt.InitialSignature.SignatureA) < 64 || len(voteExt.InitialSignature.SignatureB) < 64 {
+				h.logger.Error("CheckInitialSignaturesFromLastCommit: initial signature shorter than 64 bytes")
+				continue
+			}
 			// verify initial sig
 			evmAddress, err := h.bridgeKeeper.EVMAddressFromSignatures(ctx, voteExt.InitialSignature.SignatureA, voteExt.InitialSignature.SignatureB)
 			if err != nil {
